@@ -11,6 +11,8 @@ import (
 	"encoding/json"
 	"errors"
 	"fmt"
+	"runtime"
+	"strings"
 	"sync"
 	"sync/atomic"
 	"time"
@@ -56,6 +58,14 @@ type Header struct {
 
 	mu   sync.Mutex
 	hash header.Hash
+
+	// Park (not serialised): when set, the first Height() call made from a function whose name contains ParkIn
+	// signals Parked and blocks until Release is closed - a way to stop one goroutine in the middle of a library
+	// function that reads the header, without any hook in the library.
+	ParkIn   string
+	Parked   chan struct{}
+	Release  chan struct{}
+	parkOnce sync.Once
 }
 
 var _ header.Header[*Header] = (*Header)(nil)
@@ -63,7 +73,24 @@ var _ header.Header[*Header] = (*Header)(nil)
 func (d *Header) New() *Header    { return new(Header) }
 func (d *Header) IsZero() bool    { return d == nil }
 func (d *Header) ChainID() string { return d.Chain }
-func (d *Header) Height() uint64  { return d.H }
+func (d *Header) Height() uint64 {
+	if d.ParkIn != "" {
+		pcs := make([]uintptr, 8)
+		n := runtime.Callers(2, pcs)
+		fr := runtime.CallersFrames(pcs[:n])
+		for {
+			f, more := fr.Next()
+			if strings.Contains(f.Function, d.ParkIn) {
+				d.parkOnce.Do(func() { close(d.Parked); <-d.Release })
+				break
+			}
+			if !more {
+				break
+			}
+		}
+	}
+	return d.H
+}
 func (d *Header) Time() time.Time { return time.Unix(0, d.T).UTC() }
 func (d *Header) LastHeader() header.Hash {
 	return d.Prev
